@@ -23,9 +23,332 @@ def c15():
     return m
 
 
+FG = 'include/oneapi/tbb/flow_graph.h'
+
+
+def _proto(t):
+    """`RET f(params) {...` -> `RET f(params);`"""
+    return t[:t.index('{')].strip() + ';\n'
+
+
+def extract_buffer_node(ctx, sliced, fired, m15):
+    """buffer_node / queue_node aggregator handler on the REAL item_buffer (grow_my_array under the contract that C15 proves)."""
+    # ---- 1. the complete item_buffer (second instance of the C15 extraction, with everything the handler reaches) ----
+    GROW = [(r'allocator_type\(\)\.allocate\(new_size\)', '(aligned_space_item*)alloc_nofail(new_size * sizeof(aligned_space_item))', 1),
+            (r'char \*new_space = \(char \*\)&\(new_array\[i&\(new_size-1\)\]\.item\);\s*\(void\)new\(new_space\) item_type\(get_my_item\(i\)\);', 'new_array[i&(new_size-1)].item = *get_my_item(i);', 1),
+            (r'clean_up_buffer\(false\);', 'clean_up_buffer(false);', 1)]
+    CLEAN = [(r'allocator_type\(\)\.deallocate\(my_array,my_array_size\);', 'free(my_array);', 1), (r'my_head = my_tail = my_array_size = 0;', 'my_head = 0; my_tail = 0; my_array_size = 0;', 1)]
+    more = [(r'const item_type& front\(\) const', 'item_buffer_front', [(r'return get_my_item\(my_head\);', 'return get_my_item(my_head);', 0)], 'const item_type*'),
+            (r'const item_type& back\(\) const', 'item_buffer_back', [(r'return get_my_item\(my_tail - 1\);', 'return get_my_item(my_tail - 1);', 0)], 'const item_type*'),
+            (r'void reserve_item\(size_type i\)', 'item_buffer_reserve_item', [(r'!my_item_reserved\(i\)', 'element(i).state != reserved_item', 0)], None),
+            (r'void release_item\(size_type i\)', 'item_buffer_release_item', [(r'my_item_reserved\(i\)', 'element(i).state == reserved_item', 0)], None),
+            (r'void destroy_front\(\)', 'item_buffer_destroy_front', [], None),
+            (r'void destroy_back\(\)', 'item_buffer_destroy_back', [], None),
+            (r'void clean_up_buffer\(bool reset_pointers\)', 'item_buffer_clean_up_buffer', CLEAN, None),
+            (r'void grow_my_array\( size_t minimum_size \)', 'item_buffer_grow_my_array', GROW, None),
+            (r'bool buffer_full\(\)', 'item_buffer_buffer_full', [], None),
+            (r'bool push_back\(item_type& v\s', 'item_buffer_push_back', [(r'set_my_item\(my_tail, v\);', 'set_my_item(my_tail, v);', 0)], None),
+            (r'bool pop_back\(item_type& v\s', 'item_buffer_pop_back', [(r'v = e->item;', '*v = e->item;', 0)], None),
+            (r'bool pop_front\(item_type& v\s', 'item_buffer_pop_front', [(r'v = e->item;', '*v = e->item;', 0)], None)]
+    s2, f2 = [], {}
+    ib, rw, conv = m15.extract_item_buffer(ctx, s2, f2, more=more)
+    ibp = os.path.join(ctx.work, 'item_buffer.inc')
+    txt = open(ibp).read()
+    os.remove(ibp)
+    txt = rw.sub(txt, r'void item_buffer_grow_my_array\(struct item_buffer\* self, size_t minimum_size\) \{', 'void item_buffer_grow_my_array(struct item_buffer* self, size_t minimum_size)\nCONTRACT_grow_my_array {', 1, 1, name='contract-anchor')
+    a_ = txt.index('void item_buffer_grow_my_array(struct item_buffer* self, size_t minimum_size)\nCONTRACT_grow_my_array {')
+    e_ = txt.index('\n    }\n', a_) + 7
+    txt = txt[:a_] + tag_loops(txt[a_:e_], 'ibgrow', rw, expect=3) + txt[e_:]
+    a_ = txt.index('void item_buffer_clean_up_buffer(')
+    e_ = txt.index('\n    }\n', a_) + 7
+    txt = txt[:a_] + tag_loops(txt[a_:e_], 'ibclean', rw, expect=1) + txt[e_:]
+    if txt.count('    size_t my_tail;\n};') != 1:
+        raise ExtractionBreak('item_buffer struct layout changed')
+    txt = txt.replace('    size_t my_tail;\n};', '    size_t my_tail;\n    bool my_reserved;      /* member of the derived reservable_item_buffer */\n    bool forwarder_busy;   /* member of the derived buffer_node (one flattened object) */\n};')
+    txt = 'void item_buffer_clean_up_buffer(struct item_buffer* self, bool reset_pointers);\nvoid item_buffer_grow_my_array(struct item_buffer* self, size_t minimum_size);\n' + txt
+    common.write(ctx, 'item_buffer_bn.inc', txt)
+    # the harness prelude of C15 (types, IB_SHAPE, the grow_my_array contract and its loop invariants) is taken over verbatim so that the contract
+    # used here is textually the one that C15's job buffer.grow_my_array enforces
+    c15c = open(os.path.join(HERE, '..', 'C15', 'c15.c')).read()
+    a_ = c15c.find('#ifdef SEQ\n')
+    e_ = c15c.find('#include "item_buffer.inc"', a_)
+    if a_ < 0 or e_ < 0 or 'CONTRACT_grow_my_array' not in c15c[a_:e_]:
+        raise ExtractionBreak('specs/C15/c15.c: SEQ prelude with CONTRACT_grow_my_array not found')
+    common.write(ctx, 'c15_prelude.inc', c15c[a_ + len('#ifdef SEQ\n'):e_])
+    # ---- 2. buffer_node ----
+    for pat, what in ((r'enum op_type \{reg_succ, rem_succ, req_item, res_item, rel_res, con_res, put_item, try_fwd_task\s*\};', 'buffer_node::op_type'),
+                      (r'bool forwarder_busy;', 'buffer_node::forwarder_busy'), (r'round_robin_cache< T, null_rw_mutex > my_successors;', 'buffer_node::my_successors')):
+        if not re.search(pat, load(FG)):
+            raise ExtractionBreak('flow_graph.h: %s changed' % what)
+    TB = {'size_type': 'size_t', 'derived_type': 'struct item_buffer', 'T': 'item_type'}
+    bn = CClass(FG, r'class buffer_node\s*: public graph_node', 'item_buffer', tbind=TB)
+    bn.members = ib.members + [('bool', 'my_reserved', ''), ('bool', 'forwarder_busy', '')]
+    rb = bn.rw
+    IBM = ['my_item_valid', 'back', 'front', 'destroy_back', 'destroy_front', 'push_back', 'pop_back', 'pop_front']
+    OPS = 'internal_reg_succ|internal_rem_succ|internal_pop|internal_reserve|internal_release|internal_consume|internal_push|internal_forward_task'
+    PRE = [(r'static_cast<class_type\*>\(derived\) == this', 'derived == self', 0),
+           (r'\b(%s)\(tmp\)' % OPS, r'VIRT_\1(self, tmp)', 0),
+           (r'derived->order\(\);', 'DERIVED_order(derived);', 0),
+           (r'derived->is_item_valid\(\)', 'DERIVED_is_item_valid(derived)', 0),
+           (r'derived->try_put_and_add_task\(last_task\)', 'DERIVED_try_put_and_add_task(derived, &last_task)', 0),
+           (r'is_graph_active\(this->my_graph\)', 'STUB_is_graph_active()', 0),
+           (r'typedef forward_task_bypass<class_type> task_type;', 'RG_NOP();', 0),
+           (r'd1::small_object_allocator allocator\{\};', 'RG_NOP();', 0),
+           (r'allocator\.new_object<task_type>\(graph_reference\(\), allocator, \*this\)', 'STUB_new_forward_task(self)', 0),
+           (r'graph ?& ?(\w+) = this->(?:my_graph|graph_reference\(\));', r'graph* \1 = STUB_graph();', 0),
+           (r'(?:this->)?my_successors\.size\(\)', 'STUB_succ_size(self)', 0),
+           (r'(?:this->)?my_successors\.try_put_task\(', 'STUB_succ_try_put_task(self, ', 0),
+           (r'my_successors\.register_successor\(\*\(op->r\)\);', 'STUB_succ_register(self, op->r);', 0),
+           (r'my_successors\.remove_successor\(\*\(op->r\)\);', 'STUB_succ_remove(self, op->r);', 0),
+           (r'(?:this->)?handle_operations_impl\(op_list, this\)', 'bn_handle_operations_impl(self, op_list, self)', 0),
+           (r'(?:this->)?internal_forward_task_impl\(op, this\)', 'bn_internal_forward_task_impl(self, op, self)', 0),
+           (r'this->(consume_front|release_front)\(\)', r'rib_\1(self)', 0), (r'this->reserve_front\(', 'rib_reserve_front(self, ', 0),
+           (r'(?:this->)?is_item_valid\(\)', 'DERIVED_is_item_valid(self)', 0),
+           (r'\*\(op->elem\)', 'op->elem', 0),     # argument for a reference parameter (now a pointer)
+           (r'(\w+)->status\.store\((\w+), std::memory_order_release\);', r'SET_STATUS(\1, \2);', 0)]
+
+    def res(sl, name):
+        return m15.resolved(sl, name)
+
+    def cv(cls, sig, cfn, loops=None):
+        t = cls.convert(res(cls.method(sig), cfn), cfn, methods=IBM, pre=PRE)
+        # `graph_task*& last_task` became a pointer parameter: every use in the body is a dereference
+        hd, body = t[:t.index('{')], t[t.index('{'):]
+        if 'graph_task** last_task' in hd:
+            body = re.sub(r'\blast_task\b', '(*last_task)', body)
+            rb.fired['ref-param use -> deref'] = rb.fired.get('ref-param use -> deref', 0) + 1
+        hd = re.sub(r'\)\s*override\s*$', ') ', hd)
+        t = hd + body
+        if loops:
+            t = tag_loops(t, loops[0], rb, expect=loops[1])
+        return t
+    out = []
+    out.append(cv(bn, r'void handle_operations_impl\(buffer_operation \*op_list, derived_type\* derived\)', 'bn_handle_operations_impl', ('bnho', 1)))
+    out.append(cv(bn, r'virtual void handle_operations\(buffer_operation \*op_list\)', 'bn_handle_operations'))
+    out.append(cv(bn, r'virtual void internal_reg_succ\(buffer_operation \*op\)', 'bn_internal_reg_succ'))
+    out.append(cv(bn, r'virtual void internal_rem_succ\(buffer_operation \*op\)', 'bn_internal_rem_succ'))
+    out.append(cv(bn, r'void order\(\)', 'bn_order'))
+    out.append(cv(bn, r'bool is_item_valid\(\)', 'bn_is_item_valid'))
+    out.append(cv(bn, r'void try_put_and_add_task\(graph_task\*& last_task\)', 'bn_try_put_and_add_task'))
+    out.append(cv(bn, r'virtual void internal_forward_task\(buffer_operation \*op\)', 'bn_internal_forward_task'))
+    out.append(cv(bn, r'void internal_forward_task_impl\(buffer_operation \*op, derived_type\* derived\)', 'bn_internal_forward_task_impl', ('bnfwd', 1)))
+    out.append(cv(bn, r'virtual bool internal_push\(buffer_operation \*op\)', 'bn_internal_push'))
+    out.append(cv(bn, r'virtual void internal_pop\(buffer_operation \*op\)', 'bn_internal_pop'))
+    out.append(cv(bn, r'virtual void internal_reserve\(buffer_operation \*op\)', 'bn_internal_reserve'))
+    out.append(cv(bn, r'virtual void internal_consume\(buffer_operation \*op\)', 'bn_internal_consume'))
+    out.append(cv(bn, r'virtual void internal_release\(buffer_operation \*op\)', 'bn_internal_release'))
+    # ---- 2b. the public entry points around the aggregator: what happens to the operation record's task ----
+    WPRE = [(r'buffer_operation op_data\((\w+)\);', r'buffer_operation op_data; OP_INIT(&op_data, NULL, \1);', 0),
+            (r'buffer_operation op_data\(t, (\w+)\);', r'buffer_operation op_data; OP_INIT(&op_data, t, \1);', 0),
+            (r'my_aggregator\.execute\(&op_data\);', 'AGG_execute(self, &op_data);', 0),
+            (r'op_data\.r = &r;', 'op_data.r = r;', 0), (r'op_data\.elem = &v;', 'op_data.elem = v;', 0),
+            (r'enqueue_forwarding_task\(op_data\)', 'bn_enqueue_forwarding_task(self, &op_data)', 0),
+            (r'grab_forwarding_task\(op_data\)', 'bn_grab_forwarding_task(self, &op_data)', 0),
+            (r'grab_forwarding_task\(\s*buffer_operation &op_data\)', 'grab_forwarding_task(buffer_operation &op_data)', 0),
+            (r'spawn_in_graph_arena\(graph_reference\(\), \*ft\);', 'STUB_spawn(ft);', 0),
+            (r'tbb::detail::d2::remove_predecessor\(r, \*this\);', 'STUB_remove_predecessor(self, r);', 0)]
+    TBW = dict(TB)
+    TBW['successor_type'] = 'void'
+    bw = CClass(FG, r'class buffer_node\s*: public graph_node', 'item_buffer', tbind=TBW, rw=rb)
+    bw.members = bn.members
+
+    def cw(sig, cfn, loops=None):
+        t = bw.convert(res(bw.method(sig), cfn), cfn, pre=WPRE + PRE)
+        t = re.sub(r'\)\s*override\s*\{', ') {', t, 1)
+        hd, body = t[:t.index('{')], t[t.index('{'):]
+        if 'buffer_operation* op_data' in hd:      # reference parameter (now a pointer) passed on: no address-of
+            body = body.replace('&op_data', 'op_data')
+        t = hd + body
+        if loops:
+            t = tag_loops(t, loops[0], rb, expect=loops[1])
+        return t
+    wout = []
+    wout.append(cw(r'inline graph_task \*grab_forwarding_task\( buffer_operation &op_data\)', 'bn_grab_forwarding_task'))
+    wout.append(cw(r'inline bool enqueue_forwarding_task\(buffer_operation &op_data\)', 'bn_enqueue_forwarding_task'))
+    wout.append(cw(r'virtual graph_task \*forward_task\(\)', 'bn_forward_task', ('bnft', 1)))
+    wout.append(cw(r'bool register_successor\( successor_type &r \) override', 'bn_register_successor'))
+    wout.append(cw(r'bool remove_successor\( successor_type &r \) override', 'bn_remove_successor'))
+    wout.append(cw(r'bool try_get\( T &v \) override', 'bn_try_get'))
+    wout.append(cw(r'bool try_reserve\( T &v \) override', 'bn_try_reserve'))
+    wout.append(cw(r'bool try_release\(\) override', 'bn_try_release'))
+    wout.append(cw(r'bool try_consume\(\) override', 'bn_try_consume'))
+    wout.append(cw(r'graph_task\* try_put_task_impl\(const T& t', 'bn_try_put_task_impl'))
+    # ---- 3. queue_node overrides ----
+    qn = CClass(FG, r'class queue_node : public buffer_node<T> \{', 'item_buffer', tbind=TB, rw=rb)
+    qn.members = bn.members
+    out.append(cv(qn, r'bool is_item_valid\(\)', 'qn_is_item_valid'))
+    out.append(cv(qn, r'void try_put_and_add_task\(graph_task\*& last_task\)', 'qn_try_put_and_add_task'))
+    out.append(cv(qn, r'void internal_forward_task\(queue_operation \*op\) override', 'qn_internal_forward_task'))
+    out.append(cv(qn, r'void internal_pop\(queue_operation \*op\) override', 'qn_internal_pop'))
+    out.append(cv(qn, r'void internal_reserve\(queue_operation \*op\) override', 'qn_internal_reserve'))
+    out.append(cv(qn, r'void internal_consume\(queue_operation \*op\) override', 'qn_internal_consume'))
+    # ---- 4. combine_tasks (free function) ----
+    ct = slice_block(FG, r'static inline graph_task\* combine_tasks\(graph& g, graph_task\* left, graph_task\* right\)')
+    t = rb.sub(ct.text, r'static inline graph_task\* combine_tasks\(graph& g, graph_task\* left, graph_task\* right\)', 'static graph_task* combine_tasks(graph* g, graph_task* left, graph_task* right)', 1, 1, name='sig (ref-param -> pointer)')
+    t = rb.sub(t, r'auto tasks_pair = order_tasks\(left, right\);', 'struct task_pair tasks_pair = STUB_order_tasks(left, right);', 0, name='order_tasks -> stub (either order)')
+    t = rb.sub(t, r'spawn_in_graph_arena\(g, \*([\w.]+)\);', r'STUB_spawn(\1);', 0, name='spawn_in_graph_arena -> stub')
+    t = rb.std(t)
+    txt = t + '\n' + ''.join(_proto(x) for x in out) + '\n'.join(out)
+    bad = cxx2c.c_residue(txt)
+    if bad:
+        raise ExtractionBreak('buffer_node.inc: C++ residue %s' % bad)
+    common.write(ctx, 'buffer_node.inc', txt)
+    wtxt = ''.join(_proto(x) for x in wout) + '\n'.join(wout)
+    bad = cxx2c.c_residue(wtxt)
+    if bad:
+        raise ExtractionBreak('buffer_node_api.inc: C++ residue %s' % bad)
+    common.write(ctx, 'buffer_node_api.inc', wtxt)
+    sliced += s2 + bn.sliced + bw.sliced + qn.sliced + ['%s:%d combine_tasks' % (FG, ct.line)]
+    fired['item_buffer(full)'] = dict(rw.fired)
+    fired['buffer_node+queue_node'] = dict(rb.fired)
+
+
+CI = 'include/oneapi/tbb/detail/_flow_graph_cache_impl.h'
+
+
+def extract_caches(ctx, sliced, fired, m15):
+    """broadcast_cache / round_robin_cache::try_put_task_impl and predecessor_cache / reservable_predecessor_cache (pull side).
+    std::list / std::queue are viewed positionally: the successors (predecessors) present on entry are numbered 0..n-1 in list order, an iterator is
+    a position, erase(i) yields i+1 (only forward iteration with erasure at the iterator occurs; the stubs check that)."""
+    LOCK = (r'typename mutex_type::scoped_lock (?:l|lock)\(\s*this->my_mutex(?:, (?:true|false))?\s*\);', 'RG_NOP();', 0)
+    PRE = [LOCK,
+           (r'typename successors_type::iterator i = this->my_successors\.begin\(\);', 'size_t i = LIST_begin(self);', 0),
+           (r'this->my_successors\.end\(\)', 'LIST_end(self)', 0),
+           (r'\(\*i\)->try_put_task\(t\)', 'SUCC_try_put_task(self, i, t)', 0),
+           (r'graph ?& ?(\w+) = \(\*i\)->graph_reference\(\);', r'graph* \1 = STUB_graph();', 0),
+           (r'\(\*i\)->register_predecessor\(\*this->my_owner\)', 'SUCC_register_predecessor(self, i)', 0),
+           (r'this->my_successors\.erase\(i\)', 'LIST_erase(self, i)', 0)]
+    TB = {'T': 'item_type', 'size_type': 'size_t', 'output_type': 'item_type'}
+    out = []
+    bc = CClass(CI, r'class broadcast_cache : public successor_cache<T, M> \{', 'cache', tbind=TB)
+    t = bc.convert(m15.resolved(bc.method(r'graph_task\* try_put_task_impl\( const T& t'), 'bc'), 'bc_try_put_task_impl', pre=PRE)
+    out.append(tag_loops(t, 'bcput', bc.rw, expect=1))
+    rr = CClass(CI, r'class round_robin_cache : public successor_cache<T, M> \{', 'cache', tbind=TB, rw=bc.rw)
+    t = rr.convert(m15.resolved(rr.method(r'graph_task\* try_put_task_impl\( const T &t'), 'rr'), 'rr_try_put_task_impl', pre=PRE)
+    out.append(tag_loops(t, 'rrput', bc.rw, expect=1))
+    ct = slice_block(FG, r'static inline graph_task\* combine_tasks\(graph& g, graph_task\* left, graph_task\* right\)')
+    t = bc.rw.sub(ct.text, r'static inline graph_task\* combine_tasks\(graph& g, graph_task\* left, graph_task\* right\)', 'static graph_task* combine_tasks(graph* g, graph_task* left, graph_task* right)', 1, 1, name='sig (ref-param -> pointer)')
+    t = bc.rw.sub(t, r'auto tasks_pair = order_tasks\(left, right\);', 'struct task_pair tasks_pair = STUB_order_tasks(left, right);', 0, name='order_tasks -> stub (either order)')
+    t = bc.rw.sub(t, r'spawn_in_graph_arena\(g, \*([\w.]+)\);', r'STUB_spawn(\1);', 0, name='spawn_in_graph_arena -> stub')
+    t = bc.rw.std(t)
+    txt = t + '\n' + '\n'.join(out)
+    bad = cxx2c.c_residue(txt)
+    if bad:
+        raise ExtractionBreak('succ_cache.inc: C++ residue %s' % bad)
+    common.write(ctx, 'succ_cache.inc', txt)
+    sliced += bc.sliced + rr.sliced
+    # ---- pull side ----
+    if not re.search(r'std::atomic<predecessor_type\*> reserved_src;', load(CI)) or not re.search(r'std::queue< T \* > my_q;', load(CI)):
+        raise ExtractionBreak('_flow_graph_cache_impl.h: reserved_src / my_q declarations changed')
+    PPRE = [(r'typename mutex_type::scoped_lock lock\(this->my_mutex\);', 'RG_NOP();', 0),
+            (r'this->internal_empty\(\)', 'Q_empty(self)', 0),
+            (r'&this->internal_pop\(\)', 'Q_pop(self)', 0),
+            (r'(\w+)->try_get\( ?v ?\)', r'PRED_try_get(self, \1, v)', 0),
+            (r'(\w+)->try_reserve\( ?v ?\)', r'PRED_try_reserve(self, \1, v)', 0),
+            (r'register_successor\( ?\*(\w+), \*(?:this->)?my_owner ?\);', r'PRED_register_successor(self, \1);', 0),
+            (r'this->add\( ?\*(\w+)\);', r'Q_add(self, \1);', 0),
+            (r'reserved_src\.load\(std::memory_order_relaxed\)->try_release\(\);', 'PRED_try_release(self, reserved_src.load(std::memory_order_relaxed));', 0),
+            (r'reserved_src\.load\(std::memory_order_relaxed\)->try_consume\(\);', 'PRED_try_consume(self, reserved_src.load(std::memory_order_relaxed));', 0)]
+    pc = CClass(CI, r'class predecessor_cache : public node_cache< sender<T>, M > \{', 'pcache', tbind=TB, rw=bc.rw)
+    pc.members = [('predecessor_type*', 'reserved_src', '')]
+    out = []
+    t = pc.convert(m15.resolved(pc.method(r'bool get_item_impl\( output_type& v'), 'pc'), 'pc_get_item_impl', pre=PPRE)
+    out.append(tag_loops(t, 'pcget', bc.rw, expect=1))
+    rc = CClass(CI, r'class reservable_predecessor_cache : public predecessor_cache< T, M > \{', 'pcache', tbind=TB, rw=bc.rw)
+    rc.members = pc.members
+    t = rc.convert(m15.resolved(rc.method(r'bool try_reserve_impl\( output_type &v'), 'rc'), 'rc_try_reserve_impl', pre=PPRE)
+    out.append(tag_loops(t, 'rcres', bc.rw, expect=1))
+    out.append(rc.convert(rc.method(r'bool try_release\(\)'), 'rc_try_release', pre=PPRE))
+    out.append(rc.convert(rc.method(r'bool try_consume\(\)'), 'rc_try_consume', pre=PPRE))
+    txt = '\n'.join(out)
+    txt = bc.rw.atomics(txt, ['reserved_src'], 0)
+    bad = cxx2c.c_residue(txt)
+    if bad:
+        raise ExtractionBreak('pred_cache.inc: C++ residue %s' % bad)
+    common.write(ctx, 'pred_cache.inc', txt)
+    sliced += pc.sliced + rc.sliced
+    fired['successor caches'] = dict(bc.rw.fired)
+
+
+GI = 'include/oneapi/tbb/detail/_flow_graph_impl.h'
+BI = 'include/oneapi/tbb/detail/_flow_graph_body_impl.h'
+TH = 'include/oneapi/tbb/detail/_task.h'
+
+
+def extract_wait(ctx, sliced, fired):
+    """graph_task ctor / finalize, forward_task_bypass::execute / cancel, graph::reserve_wait / release_wait (reference pairing) and
+    reference_vertex::reserve / release (rely/guarantee on m_ref_count)."""
+    rw = Rewriter('wait')
+    out = []
+    s = slice_block(GI, r'inline graph_task::graph_task\(graph& g, d1::small_object_allocator& allocator,', ctor=True)
+    sliced.append('%s:%d graph_task::graph_task' % (GI, s.line))
+    t = rw.sub(s.text, r'inline graph_task::graph_task\(graph& g, d1::small_object_allocator& allocator,\s*node_priority_t node_priority\)\s*: my_graph\(g\)\s*, priority\(node_priority\)\s*, my_allocator\(allocator\)\s*\{',
+               'void graph_task_ctor(struct graph_task* self, graph* g, int node_priority) {\n    self->my_graph = g; self->priority = node_priority;', 1, 1, name='ctor sig + init list -> assignments')
+    t = rw.sub(t, r'd1::wait_context_vertex\* graph_wait_context_vertex = &my_graph\.get_wait_context_vertex\(\);', 'vertex* graph_wait_context_vertex = GRAPH_wait_vertex(self->my_graph);', 0, name='accessor')
+    t = rw.sub(t, r'is_this_thread_in_graph_arena\(g\)', 'STUB_is_this_thread_in_graph_arena(g)', 0, name='callee stub')
+    t = rw.sub(t, r'r1::get_thread_reference_vertex\(', 'STUB_get_thread_reference_vertex(', 0, name='callee stub')
+    t = rw.sub(t, r'\b(\w+)->reserve\(\);', r'VERTEX_reserve(\1);', 0, name='virtual call')
+    t = rw.fields(t, ['my_reference_vertex'])
+    t = rw.asserts(t)
+    t = rw.std(t)
+    out.append(t)
+    s = slice_block(GI, r'inline void graph_task::finalize\(const d1::execution_data& ed\)')
+    sliced.append('%s:%d graph_task::finalize' % (GI, s.line))
+    t = rw.sub(s.text, r'inline void graph_task::finalize\(const d1::execution_data& ed\)', 'void graph_task_finalize(struct graph_task* self)', 1, 1, name='sig')
+    t = rw.sub(t, r'd1::wait_tree_vertex_interface\* reference_vertex = my_reference_vertex;', 'vertex* reference_vertex = my_reference_vertex;', 0, name='ns-strip')
+    t = rw.sub(t, r'destruct_and_deallocate<DerivedType>\(ed\);', 'STUB_destruct_and_deallocate(self);', 0, name='callee stub (destroys *self)')
+    t = rw.sub(t, r'\b(\w+)->release\(\);', r'VERTEX_release(\1);', 0, name='virtual call')
+    t = rw.fields(t, ['my_reference_vertex'])
+    t = rw.std(t)
+    out.append(t)
+    for sig, cfn in ((r'd1::task\* execute\(d1::execution_data& ed\) override', 'fwd_task_execute'), (r'd1::task\* cancel\(d1::execution_data& ed\) override', 'fwd_task_cancel')):
+        s = slice_block(BI, sig, within=r'class forward_task_bypass : public graph_task \{')
+        sliced.append('%s:%d forward_task_bypass::%s' % (BI, s.line, cfn))
+        t = rw.sub(s.text, sig, 'graph_task* %s(struct graph_task* self)' % cfn, 1, 1, name='sig')
+        t = rw.sub(t, r'my_node\.forward_task\(\)', 'NODE_forward_task(self)', 0, name='callee stub')
+        t = rw.sub(t, r'prioritize_task\(my_node\.graph_reference\(\), \*next_task\)', 'STUB_prioritize_task(next_task)', 0, name='callee stub')
+        t = rw.sub(t, r'finalize<forward_task_bypass>\(ed\);', 'graph_task_finalize(self);', 0, name='member call')
+        t = rw.std(t)
+        out.append(t)
+    for nm in ('reserve_wait', 'release_wait'):
+        s = slice_block('include/oneapi/tbb/flow_graph.h', r'inline void graph::%s\(\)' % nm)
+        sliced.append('include/oneapi/tbb/flow_graph.h:%d graph::%s' % (s.line, nm))
+        t = rw.sub(s.text, r'inline void graph::%s\(\)' % nm, 'void graph_%s(graph* self)' % nm, 1, 1, name='sig')
+        t = rw.sub(t, r'my_wait_context_vertex\.(reserve|release)\(\);', r'VERTEX_\1(&self->my_wait_context_vertex);', 0, name='member call')
+        t = rw.nop_calls(t, [r'fgt_reserve_wait', r'fgt_release_wait'])
+        out.append(t)
+    txt = '\n'.join(out)
+    bad = cxx2c.c_residue(txt)
+    if bad:
+        raise ExtractionBreak('graph_wait.inc: C++ residue %s' % bad)
+    common.write(ctx, 'graph_wait.inc', txt)
+    # reference_vertex
+    rv = CClass(TH, r'class reference_vertex : public wait_tree_vertex_interface \{', 'refv', rw=rw)
+    rv.harvest_members(['my_parent', 'm_ref_count'])
+    PRE = [(r'my_parent->reserve\(\);', 'PARENT_reserve(my_parent);', 0), (r'auto parent = my_parent;', 'wait_tree_vertex_interface* parent = my_parent;', 0), (r'parent->release\(\);', 'PARENT_release(parent);', 0)]
+    out = []
+    for nm in ('reserve', 'release'):
+        t = rv.convert(rv.method(r'void %s\(std::uint32_t delta = 1\) override' % nm), 'refv_' + nm, pre=PRE)
+        t = re.sub(r'\)\s*override\s*\{', ') {', t, 1)
+        t = rw.atomics(t, ['m_ref_count'], 0)
+        t = rw.number_sites(t, nm, by_kind=True)
+        out.append(t)
+    txt = '\n'.join(out)
+    bad = cxx2c.c_residue(txt)
+    if bad:
+        raise ExtractionBreak('refvertex.inc: C++ residue %s' % bad)
+    common.write(ctx, 'refvertex_struct.inc', rv.struct_decl())
+    common.write(ctx, 'refvertex.inc', txt)
+    sliced += rv.sliced
+    fired['graph wait / reference vertex'] = dict(rw.fired)
+
+
 def extract(ctx):
     sliced, fired = [], {}
     m15 = c15()
+    extract_buffer_node(ctx, sliced, fired, m15)
+    extract_caches(ctx, sliced, fired, m15)
+    extract_wait(ctx, sliced, fired)
     more = [(r'const item_type& front\(\) const', 'item_buffer_front', [(r'return get_my_item\(my_head\);', 'return get_my_item(my_head);', 1)], 'const item_type*'),
             (r'void reserve_item\(size_type i\)', 'item_buffer_reserve_item', [(r'!my_item_reserved\(i\)', 'element(i).state != reserved_item', 1)], None),
             (r'void release_item\(size_type i\)', 'item_buffer_release_item', [(r'my_item_reserved\(i\)', 'element(i).state == reserved_item', 1)], None),
@@ -90,13 +413,57 @@ def build(ctx):
         Job('buffer.reserve_front', C, 'h_reserve', route='LF', defines=['RIB'], target='reservable_item_buffer::reserve_front', source=IB),
         Job('buffer.consume_release', C, 'h_consume_release', route='LF', defines=['RIB'], target='reservable_item_buffer::consume_front / release_front', source=IB),
     ]
+    OPS = ['reg_succ', 'rem_succ', 'req_item', 'res_item', 'rel_res', 'con_res', 'put_item', 'try_fwd_task']
+    for cls, dfn in (('bufnode', []), ('queue', ['DERIVED_QUEUE'])):
+        for k, opn in enumerate(OPS):
+            jobs.append(Job('%s.handle.%s' % (cls, opn), C, 'h_bn_op', route='LC', defines=['BN', 'OPK=%d' % k] + dfn, loops=True, nloops=(1 if opn == 'try_fwd_task' else 0),
+                            replace=['item_buffer_grow_my_array'], timeout=900, twin=True, solver=('cadical' if opn == 'try_fwd_task' else None),
+                            target='%s: handle_operations_impl(%s) + internal_* + try_put_and_add_task + combine_tasks on the real item_buffer (one arbitrary operation in an arbitrary invariant state)' % ('buffer_node' if cls == 'bufnode' else 'queue_node', opn), source=FG))
+    jobs.append(Job('cache.broadcast.try_put_task', C, 'h_bc_put', route='LC', defines=['SC'], loops=True, nloops=1, timeout=300, target='broadcast_cache::try_put_task_impl + combine_tasks', source=CI))
+    jobs.append(Job('cache.round_robin.try_put_task', C, 'h_rr_put', route='LC', defines=['SC'], loops=True, nloops=1, timeout=300, target='round_robin_cache::try_put_task_impl', source=CI))
+    jobs.append(Job('pull.predecessor_cache.get_item', C, 'h_pc_get', route='LC', defines=['PC'], loops=True, nloops=1, timeout=300, target='predecessor_cache::get_item_impl', source=CI))
+    jobs.append(Job('pull.reservable.try_reserve', C, 'h_rc_reserve', route='LC', defines=['PC'], loops=True, nloops=1, timeout=300, target='reservable_predecessor_cache::try_reserve_impl', source=CI))
+    jobs.append(Job('pull.reservable.release_consume', C, 'h_rc_release_consume', route='LF', defines=['PC'], timeout=300, target='reservable_predecessor_cache::try_release / try_consume', source=CI))
+    jobs.append(Job('wait.graph_task.reference', C, 'h_task_life', route='LF', defines=['WT'], timeout=300, target='graph_task::graph_task + graph_task::finalize + forward_task_bypass::execute / cancel', source=GI))
+    jobs.append(Job('wait.graph.reserve_release_wait', C, 'h_reserve_release_wait', route='LF', defines=['WT'], timeout=300, target='graph::reserve_wait / release_wait', source=FG))
+    jobs.append(Job('wait.reference_vertex.reserve', C, 'h_refv_reserve', route='RG', defines=['RV'], timeout=300, target='reference_vertex::reserve (owner thread) against any number of concurrent releases', source=TH))
+    jobs.append(Job('wait.reference_vertex.release', C, 'h_refv_release', route='RG', defines=['RV'], timeout=300, target='reference_vertex::release (any thread) against the owner reserving and other releases', source=TH))
+    jobs.append(Job('bufnode.api.task_handoff', C, 'h_bn_api', route='LF', defines=['BN', 'BNAPI'], timeout=300,
+                    target='buffer_node::register_successor / remove_successor / try_get / try_reserve / try_release / try_consume / try_put_task_impl / enqueue_forwarding_task / grab_forwarding_task', source=FG))
+    jobs.append(Job('bufnode.api.forward_task', C, 'h_bn_forward_task', route='LC', defines=['BN', 'BNAPI'], loops=True, nloops=1, timeout=300, target='buffer_node::forward_task', source=FG))
+    # domain split (finding F10): try_get on a plain buffer_node whose ONLY item is under reservation
+    jobs.append(Job('bufnode.pop_reserved', C, 'h_bn_pop_reserved', route='LC', defines=['BN'], loops=True, nloops=0, replace=['item_buffer_grow_my_array'], timeout=300,
+                    target='buffer_node: handle_operations_impl(req_item) + internal_pop + item_buffer::pop_back while the only buffered item is reserved', source=FG))
     return {
         'jobs': jobs, 'sliced': sliced, 'fired': fired,
-        'trusted': ['the aggregator runs handle_operations on one thread at a time (proved for aggregator_generic under C13, job agg.execute)', 'input queue, predecessor cache, create_body_task, spawn_forward_task: stubs (every accept/empty pattern)', 'item_type is trivially copyable'],
-        'drops': ['preview metainfo arguments', 'status atomics -> SET_STATUS (handler-only access)', 'aligned_space -> struct'],
-        'not_decided': ['push/pull edge switching in successor/predecessor caches', 'rejection + re-offer protocols between nodes', 'wait_for_all quiescence', 'async_node gateways', 'topology quantifier',
+        'trusted': ['the aggregator runs handle_operations on one thread at a time and hands every record to the handler exactly once (proved for aggregator_generic under C13, job agg.execute); '
+                    'the buffer_node entry-point jobs (bufnode.api.*) use a stub AGG_execute that gives the record one status and a task as the handler jobs prove',
+                    'function_input_base: input queue, predecessor cache, create_body_task, spawn_forward_task: stubs (every accept/empty pattern)',
+                    'item_type is trivially copyable (int)',
+                    'item_buffer::grow_my_array is used through its contract CONTRACT_grow_my_array; the contract text is read from specs/C15/c15.c on every run and is enforced there (C15 job buffer.grow_my_array)',
+                    'buffer_node handler jobs: my_successors (round_robin_cache) is a stub with the behaviour that job cache.round_robin.try_put_task proves: offers in turn, at most one acceptor, NULL only when all rejected, '
+                    'rejecting successors leave the list iff they accept pull mode; is_graph_active, small_object_allocator::new_object, order_tasks (either order), spawn_in_graph_arena: stubs',
+                    'successor / predecessor objects behind the caches: receiver::try_put_task, register_predecessor, sender::try_get, try_reserve, try_release, try_consume, register_successor are nondeterministic stubs (every accept / reject pattern)',
+                    'std::list / std::queue semantics in the cache jobs: positional view (iterator = position, erase(i) -> i+1, queue pop = next position, push = append)',
+                    'buffer_operation constructors -> OP_INIT (type, elem, ltask = r = nullptr, status = WAIT)',
+                    'reference_vertex jobs: the parent vertex (wait_context_vertex -> wait_context::add_reference) is a ghost counter P; r1::get_thread_reference_vertex returns the calling thread\'s vertex whose parent is its argument (stub records the argument)'],
+        'drops': ['preview metainfo arguments / #if __TBB_PREVIEW_FLOW_GRAPH_TRY_PUT_AND_WAIT arms resolved to 0', 'status atomics -> SET_STATUS (handler-only access)', 'aligned_space -> struct',
+                  'scoped_lock objects of the caches -> RG_NOP (mutual exclusion is C08\'s)', 'template parameter derived_type bound to the same flattened C object; virtual internal_* calls dispatched by macro to the buffer_node or queue_node override',
+                  'fgt_* tracing calls -> RG_NOP', 'memory orders of reserved_src / m_ref_count (SC assumed)', 'execution_data arguments'],
+        'not_decided': ['sequencer_node / priority_queue_node as derived types of the buffer handler (sequencer internal_push is under C15; priority_queue_node has its own handler, C13)',
+                        'batches of more than one operation per handler run are covered as a sequence of inductive steps only for the state invariant; the combined ltask of a multi-record batch is not modelled',
+                        'interleavings of several cache calls on one cache (the cache jobs prove one call in isolation; concurrent add/remove on the same predecessor queue between the two locked sections of get_item / try_reserve is not modelled)',
+                        'successor_cache::register_successor / remove_successor, broadcast_cache::gather_successful_try_puts, predecessor_cache::reset / node_cache::remove',
+                        'a successor that rejects AND refuses pull mode (write_once_node, a full sequencer duplicate): the item stays buffered and is offered again only at the next put / release / consume / registration (ghost g_refused excludes it from the forwarding invariant)',
+                        'graph::wait_for_all itself (lambda + try_call/on_exception: exception plumbing is cut by extraction), wait_context::add_reference / notify_waiters (sleep/wake-up: C02), get_thread_reference_vertex map clean-up',
+                        'join_node ports, limiter_node (C15), input_node, overwrite/write_once, async_node gateways, topology quantifier (fan-in/fan-out/cycles) - only per-node / per-edge inductive steps are proved',
+                        'after cancellation or an exception no further body starts',
                         'aggregator exclusivity itself'],
-        'assumptions': ['app_body_bypass operations are issued once per finished body (ghost running-bodies count)'],
+        'assumptions': ['app_body_bypass operations are issued once per finished body (ghost running-bodies count)',
+                        'buffer handler: only the holder of the reservation issues rel_res / con_res; try_fwd_task records are issued only by the forward task (forwarder_busy set); buffers below 2^16 items, indices below 2^62',
+                        'buffer handler: the graph-activity flag does not change during one handler run',
+                        'reference_vertex: only the owning thread calls reserve() on its thread-local vertex (get_thread_reference_vertex is a per-thread map); release() is called only for references whose reserve() has returned; counters below 2^62',
+                        'sequentially consistent atomics'],
     }
 
 
